@@ -1995,13 +1995,25 @@ func (mvcc *MVCCLevelDB) RawCompareAndSwap(cf string, key, expectedValue, newVal
 		}
 	}
 
+	// A nil expectedValue means "the key must not exist"; an absent key is not an error.
+	exists := true
 	oldValue, err = db.Get(key, nil)
+	if err == leveldb.ErrNotFound {
+		oldValue, exists, err = nil, false, nil
+	}
 	if err != nil {
 		tikverr.Log(err)
 		return nil, false, errors.WithStack(err)
 	}
+	if exists && oldValue == nil {
+		oldValue = []byte{}
+	}
 
-	if !bytes.Equal(oldValue, expectedValue) {
+	if expectedValue == nil {
+		if exists {
+			return oldValue, false, nil
+		}
+	} else if !exists || !bytes.Equal(oldValue, expectedValue) {
 		return oldValue, false, nil
 	}
 
